@@ -193,6 +193,14 @@ class Model(object):
     # dispatch
     # ======================================================================
     def apply(self, op):
+        h = op.get('h') or {}
+        if 'x-auth-token' in h:
+            # the caller: no token, or a token without the admin or service
+            # role - refused by every route before it does anything
+            if h['x-auth-token'] is None:
+                return Expect(401)
+            if h.get('x-roles', '') is None:
+                return Expect(403)
         ct = (op.get('h') or {}).get('content-type')
         if ct and op.get('b') is not None and \
                 ct.split(';')[0].strip() != 'application/json':
@@ -208,6 +216,10 @@ class Model(object):
         return exp
 
     def _apply(self, op):
+        if op.get('defect') == 'unencodable':
+            # a lone surrogate in a stored string: cannot be stored, so it
+            # is a client error and nothing changes
+            return Expect(400)
         if op.get('defect') == 'schema':
             # the document violates the published JSON schema of the route:
             # 400, nothing changes (the generator breaks otherwise valid
